@@ -1,5 +1,6 @@
 import asyncio
 import concurrent.futures
+import itertools
 import logging
 import multiprocessing
 import multiprocessing.queues
@@ -194,6 +195,7 @@ class Server:
         assert capacity > 0
         self._capacity = capacity
         self._uid_to_futures = {}
+        self._uid_counter = itertools.count()
         # Size of this dict is capped at `self._capacity`.
         # A few places need to enforce this size limit.
 
@@ -308,7 +310,11 @@ class Server:
             't1': t0,  # end of enqueuing, to be updated
             'deadline': t0 + timeout,
         }
-        uid = id(fut)
+        uid = next(self._uid_counter)
+        # Do not use `id(fut)`: the address of a finished request's future can be reused by
+        # a new request while late results tagged with the old uid are still travelling
+        # through the servlets (e.g. slow members of a fail-fast ensemble), which would
+        # mix the two requests up.
 
         with self._pipeline_notfull:
             if len(pipeline) >= self._capacity:
@@ -490,6 +496,7 @@ class AsyncServer:
         assert capacity > 0
         self._capacity = capacity
         self._uid_to_futures = {}
+        self._uid_counter = itertools.count()
         # Size of this dict is capped at `self._capacity`.
         # A few places need to enforce this size limit.
 
@@ -554,7 +561,11 @@ class AsyncServer:
             't1': t0,  # end of enqueuing; to be updated
             'deadline': t0 + timeout,
         }
-        uid = id(fut)
+        uid = next(self._uid_counter)
+        # Do not use `id(fut)`: the address of a finished request's future can be reused by
+        # a new request while late results tagged with the old uid are still travelling
+        # through the servlets (e.g. slow members of a fail-fast ensemble), which would
+        # mix the two requests up.
 
         async with self._pipeline_notfull:
             if len(pipeline) >= self._capacity:
